@@ -98,6 +98,9 @@ def topologies(tier):
         return b
     T.append(("aerostruct-tube", as_tube(), ["AS_point_0.fuelburn", "AS_point_0.CM", "AS_point_0.CL", "AS_point_0.CD", "AS_point_0.wing_perf.failure", "AS_point_0.L_equals_W", "wing.structural_mass"],
               ["alpha", "Mach_number", "wing.twist_cp", "wing.thickness_cp", "load_factor", "rho", "v"], ["default", "LinearBlockGS-coupled"], 1e-5))
+    # two structural surfaces of very different mass in the quick tier too (cg / CM totals with respect to a variable of the FIRST
+    # surface: a seeded change that used the last surface's mass in every surface's cg partial was missed without it)
+    T.append(("aerostruct-tube-two-surfaces-cm", as_tube(two=True), ["AS_point_0.CM", "AS_point_0.fuelburn"], ["wing.thickness_cp", "tail.thickness_cp", "alpha"], ["default"], 1e-5))
     if tier != "quick":
         T.append(("aerostruct-tube-multipoint", as_tube(npoints=2), ["AS_point_0.fuelburn", "AS_point_1.wing_perf.failure", "AS_point_1.L_equals_W", "AS_point_0.CM"],
                   ["alpha", "wing.twist_cp", "wing.thickness_cp"], ["default"], 1e-5))
